@@ -161,6 +161,36 @@ def mdp_specs(draw, max_states=10, max_actions=4, max_events=4, min_states=1, al
                          **({"v0_dtype": "int"} if v0_int else {})))
 
 
+@st.composite
+def wide_specs(draw):
+    """MDPs with ONE very wide axis (more than 1024 or 2048 actions, or events) and otherwise tiny: sizes beyond any
+    internal chunk or block length. Tables are arithmetic functions of a few drawn coefficients (no per-entry draws);
+    the wide axis may start at 1 (aoff/eoff, see vf.tabular) so that an invented all-zero action or event is poisonous."""
+    wide = draw(st.sampled_from(["actions", "actions", "events"]))
+    n_wide = draw(st.sampled_from([1025, 1030, 1500, 2049]))
+    nS = draw(st.integers(1, 4))
+    n_other = draw(st.integers(1, 3))
+    nA, nE = (n_wide, n_other) if wide == "actions" else (n_other, n_wide)
+    k = [draw(st.integers(0, 12)) for _ in range(9)]
+    scale = 10.0 ** draw(st.integers(-1, 2))
+    nxt, rew, prb = [], [], []
+    for s in range(nS):
+        rn, rr, rp = [], [], []
+        for a in range(nA):
+            n_e = [(s * (k[0] + 1) + a * (k[1] + 1) + e * (k[2] + 1) + k[3]) % nS for e in range(nE)]
+            r_e = [(((a * (k[4] + 3) + s * (k[5] + 5) + e * (k[6] + 7)) % 97) - 48) * 0.5 * scale for e in range(nE)]
+            w = [1 + (a * (k[7] + 1) + e * (k[8] + 2) + s) % 5 for e in range(nE)]
+            tot = float(sum(w))
+            rn.append(n_e); rr.append(r_e); rp.append([x / tot for x in w])
+        nxt.append(rn); rew.append(rr); prb.append(rp)
+    aoff = draw(st.sampled_from([0, 1, 1]))
+    eoff = draw(st.sampled_from([0, 1, 1]))
+    skind = draw(st.sampled_from(["ravel", "offset"]))
+    return dict(nS=nS, nA=nA, nE=nE, next=nxt, reward=rew, prob=prb, v0=None, pol0=None, scale=scale,
+                flags=[f"wide-{wide}", f"wide-{n_wide}"] + (["zero-action-foreign"] if aoff else []) + (["zero-event-foreign"] if eoff else []),
+                enc=dict(state=skind, sdims=[nS], adims=[nA], edims=[nE], prob_shape="scalar", aoff=aoff, eoff=eoff))
+
+
 gammas_discounted = st.one_of(
     st.sampled_from([0.05, 0.3, 0.5, 0.8, 0.9, 0.95, 0.99]),
     st.floats(0.02, 0.97).map(lambda x: round(x, 4)),
